@@ -126,6 +126,20 @@ def configure_node(node, case, addr):
         node.fragmentation = False
 
 
+class Neighbours(Chip):
+    """stands for every other node in range: takes and acknowledges whatever the node under test transmits, to any address,
+    and never answers - so a forwarded frame or a mesh response succeeds at radio level and the node goes on to whatever
+    it does after a successful transmission (waiting for a NETWORK_ACK that never comes, for one)"""
+
+    def air_end(self, pkt):
+        if self.lock is pkt and not pkt.is_ack and pkt.src.name == "N" and len(pkt.addr) == 5:
+            self.areg[0x0B][:5] = pkt.addr
+        r = Chip.air_end(self, pkt)
+        self.rxf.clear()
+        self.flags &= ~0x40
+        return r
+
+
 def run_frames(case):
     L = boot.lib()
     res = Result()
@@ -133,6 +147,14 @@ def run_frames(case):
     med = Medium(sim)
     node, chip, addr = make_node(L, sim, med, case["role"], case["level"], case.get("dhcp", []))
     configure_node(node, case, addr)
+    if case.get("neigh"):
+        Y = Neighbours(sim, med, "Y")
+        Y.trace_on = False
+        y = Raw(sim, Y)
+        for reg, val in ((0, 0x0F), (1, 0x3F), (2, 0x02), (3, 3), (5, 76), (6, 0x07), (0x1D, 0x05), (0x1C, 0x3F)):
+            y.w(reg, val)
+        y.ce(True)
+        res.label("with-neighbours")
     X = Chip(sim, med, "X")
     x = Raw(sim, X)
     x.w(0, 0x0E)
@@ -303,8 +325,11 @@ def _master_request_sweep():
         if not netaddr.is_node_address(a):
             continue
         for rid, table in ((44, []), (77, DHCP), (21, [[20 + i, a | (i << (3 * netaddr.level(a)))] for i in range(1, 5)] if netaddr.level(a) < 4 else DHCP)):
-            yield {"kind": "frames", "role": "master", "level": 0, "dhcp": table, "steps": True,
-                   "frames": [{"pipe": netaddr.digits(a)[0] if a != 0o4444 else 0, "hex": struct.pack("<HHHBB", a, 0, 5, 195, rid).hex()}]}
+            c = {"kind": "frames", "role": "master", "level": 0, "dhcp": table, "steps": True,
+                 "frames": [{"pipe": netaddr.digits(a)[0] if a != 0o4444 else 0, "hex": struct.pack("<HHHBB", a, 0, 5, 195, rid).hex()}]}
+            yield c
+            if rid == 44:  # and with somebody out there who takes the response at radio level (but sends no NETWORK_ACK)
+                yield dict(c, neigh=True)
 
 
 def _fragment_histories(depth):
@@ -380,6 +405,8 @@ def _strategy():
             c["frag_off"] = True
         if draw(st.integers(0, 4)) == 0:
             c["readdress"] = draw(st.sampled_from([0o1, 0o15, 0o111, 0o1111, 0o4444]))
+        if draw(st.integers(0, 2)) == 0:
+            c["neigh"] = True
         return c
 
     return case()
@@ -403,7 +430,10 @@ def decode_bytes(data):
         pos += 2 + n
     if not frames:
         return None
-    return {"kind": "frames", "role": role, "level": level, "dhcp": DHCP, "frames": frames}
+    c = {"kind": "frames", "role": role, "level": level, "dhcp": DHCP, "frames": frames}
+    if sel & 0x80:
+        c["neigh"] = True
+    return c
 
 
 def seed_inputs():
@@ -426,6 +456,13 @@ def _steps(gen):
     return g
 
 
+def _with(gen, **opts):
+    def g():
+        for c in gen():
+            yield dict(c, **opts)
+    return g
+
+
 def _steps_strategy():
     return _strategy().map(lambda c: dict(c, steps=True) if c.get("kind") == "frames" else c)
 
@@ -438,6 +475,7 @@ def parts(tier):
                 Part("master-request-from-every-address", "enum", _master_request_sweep, exhaustive=True),
                 Part("fragment-histories-depth3", "enum", lambda: _fragment_histories(3), exhaustive=True),
                 Part("structured", "enum", _structured((0, 2, 24), range(0, 256)), exhaustive=True),
+                Part("structured-with-neighbours", "enum", _with(_steps(_structured((2,), range(0, 256))), neigh=True), exhaustive=True),
                 Part("generated", "gen", _steps_strategy, n=3000),
                 Part("atheris", "fuzz", lambda: {"decoder": "vlib.checks.c15_robust:decode_bytes", "seconds": 15, "max_len": 140}, n=0)]
     return [Part("predicate-all-65536", "enum", _pred_all, exhaustive=True),
@@ -446,5 +484,7 @@ def parts(tier):
             Part("master-request-from-every-address", "enum", _master_request_sweep, exhaustive=True),
             Part("fragment-histories-depth4", "enum", lambda: _fragment_histories(4), exhaustive=True),
             Part("structured", "enum", _steps(_structured(tuple(range(0, 25)), range(0, 256))), exhaustive=True),
+            Part("structured-with-neighbours", "enum", _with(_steps(_structured((0, 2, 9, 24), range(0, 256))), neigh=True), exhaustive=True),
+            Part("master-histories-with-neighbours", "enum", _with(_steps(_master_histories), neigh=True), exhaustive=True),
             Part("generated", "gen", _steps_strategy, n=150000),
             Part("atheris", "fuzz", lambda: {"decoder": "vlib.checks.c15_robust:decode_bytes", "seconds": 600, "max_len": 140}, n=0)]
